@@ -111,6 +111,7 @@ def _props_rules(ck, P):
 def rules(ck, P):
     _props_rules(ck, P)
     mvt.table_fidelity(ck, P)
+    mvt.repeated_kept(ck, P)
     mvt.pbf_rules(ck, P)
     mvt.feature_write_rule(ck, P)
     mvt.vtlp_rules(ck, P)
